@@ -1,32 +1,46 @@
-(** C20 model: one event loop. On top of [Selector.v] (poller 0 of one) it adds what
-    [net/event_loop.rs] and [scheduler.rs] contribute to the wake-up path:
-    [COROUTINE_TOKENS], the scheduler's table of coroutines suspended in a wait, [EventLoop::token],
-    [EventLoop::resume] and [Scheduler::try_resume]. No proofs here. *)
+(** C20 model: one event loop. On top of [Selector.v] (poller 0 of one; the selector bookkeeping is
+    the one C21 uses: [add_read_event], [add_write_event], [del_event], [del_read_event],
+    [del_write_event], [deliver], [os_close], [os_open]) it adds what [net/event_loop.rs] and
+    [scheduler.rs] contribute to the wake-up path: [COROUTINE_TOKENS], the scheduler's table of
+    coroutines suspended in a wait, [EventLoop::token], [EventLoop::resume] and
+    [Scheduler::try_resume]. Waits exist for both directions (read / write readiness), descriptors
+    can be closed through the hooked [close] and their numbers handed out again. No proofs here. *)
 From OCV Require Import Base.Prelude Net.Selector.
 Open Scope Z_scope.
 
 (** descriptor value used (by the model's ghost and by the oracle's tracker alike) for a wait whose
-    descriptor had its interest deleted while the coroutine was suspended *)
+    descriptor had its interest deleted (or was closed) while the coroutine was suspended *)
 Definition VOID : Z := -1.
 
-Fixpoint void_fd (fd : Z) (l : list (Z * Z)) : list (Z * Z) :=
-  match l with
-  | [] => []
-  | (c, f) :: l' => (c, if f =? fd then VOID else f) :: void_fd fd l'
-  end.
+(** what a suspended coroutine waits for: descriptor and direction ([false] = readable,
+    [true] = writable) *)
+Definition want := (Z * bool)%type.
 
-Definition waiters_on (fd : Z) (l : list (Z * Z)) : list Z :=
-  map fst (filter (fun p => snd p =? fd) l).
+Definition void_fd (fd : Z) (l : list (Z * want)) : list (Z * want) :=
+  map (fun p : Z * want => let '(c, (f, w)) := p in (c, (if f =? fd then VOID else f, w))) l.
+
+Definition void_dir (fd : Z) (d : bool) (l : list (Z * want)) : list (Z * want) :=
+  map (fun p : Z * want =>
+         let '(c, (f, w)) := p in (c, (if (f =? fd) && Bool.eqb w d then VOID else f, w))) l.
+
+Definition waits_for (fd : Z) (d : bool) (p : Z * want) : bool :=
+  (fst (snd p) =? fd) && Bool.eqb (snd (snd p)) d.
+
+Definition waiters_on (fd : Z) (d : bool) (l : list (Z * want)) : list Z :=
+  map fst (filter (waits_for fd d) l).
 
 Definition subset (a b : list Z) : bool := forallb (fun x => zmem x b) a.
 Definition same_set (a b : list Z) : bool := subset a b && subset b a.
+Definition is_nil {A} (l : list A) : bool := match l with [] => true | _ => false end.
 
-Inductive ctag := TagOutlives.  (* registration_outlives_wait *)
+Inductive ctag :=
+| TagOutlives    (* registration_outlives_wait *)
+| TagOneToken.   (* one_token_per_descriptor *)
 
 Record loop := {
   l_sel : sel;
-  l_cotok : list Z;          (* COROUTINE_TOKENS *)
-  l_sys : list (Z * Z);      (* scheduler.syscall: suspended coroutine id -> (ghost) descriptor it waits on *)
+  l_cotok : list Z;            (* COROUTINE_TOKENS *)
+  l_sys : list (Z * want);     (* scheduler.syscall: suspended coroutine id -> (ghost) what it waits for *)
   l_ctags : list ctag
 }.
 
@@ -34,67 +48,104 @@ Definition loop_init (nfd : Z) : loop :=
   {| l_sel := sel_init 1 (map Z.of_nat (seq 0 (Z.to_nat nfd))); l_cotok := []; l_sys := []; l_ctags := [] |}.
 
 Inductive op :=
-| Wait (c fd : Z)      (* coroutine [c] waits for [fd] to become readable, with a timeout far in the future *)
-| WaitT (c fd : Z)     (* the same with a short timeout that passes with no readiness: woken by the timeout *)
-| Ready (fd : Z)       (* new data arrives on [fd] *)
-| Del (fd : Z).        (* [EventLoops::del_event(fd)], what the hooked [close] does first *)
+| Wait (d : bool) (c fd : Z)   (* coroutine [c] waits for [fd] to become readable ([d = false]) or writable
+                                  ([d = true]), with a timeout far in the future *)
+| WaitT (d : bool) (c fd : Z)  (* the same with a short timeout that passes with no readiness *)
+| Ready (d : bool) (fd : Z)    (* [d = false]: new data arrives on [fd]; [d = true]: the full send buffer
+                                  of [fd] drains, [fd] becomes writable *)
+| Del (fd : Z)                 (* [EventLoops::del_event(fd)] *)
+| DelDir (d : bool) (fd : Z)   (* [EventLoops::del_read_event(fd)] / [del_write_event(fd)] *)
+| Close (fd : Z)               (* the hooked [close(fd)]: [EventLoops::del_event(fd)], then the OS call *)
+| Reopen (fd : Z).             (* the OS hands the descriptor number out again (a new socket) *)
+
+(** what the OS holds for a descriptor: read interest, write interest, token ([/proc] [events:], [data:]) *)
+Definition kview := option (bool * bool * Z).
 
 Inductive obs :=
-| OReg (ok : bool) (data : option Z)      (* the wait began; token the OS now holds for the descriptor *)
-| ORegT (ok : bool) (data : option Z) (by_timeout : bool)
+| OReg (ok : bool) (k : kview)            (* the wait began; what the OS now holds for the descriptor *)
+| ORegT (ok : bool) (k : kview) (by_timeout : bool)
 | OBusy                                   (* a coroutine with this id is still suspended: nothing done *)
 | OEvent (tok : Z) (hit : bool) (woken : list Z)  (* event seen by the loop: token read back,
                                              found in COROUTINE_TOKENS, coroutines resumed by it *)
-| ONoEvent                                (* the OS holds no read interest for the descriptor *)
-| ODel (ok : bool)
+| ONoEvent                                (* the OS holds no interest of that direction for the descriptor *)
+| ODel (ok : bool) (k : kview)
+| OClose (ok : bool)
+| OReopen
 | OOther.
 
-Definition kdata (l : loop) (fd : Z) : option Z :=
-  match aget fd (tbl (l_sel l) 0) with Some e => Some (k_tok e) | None => None end.
+Definition kdata (l : loop) (fd : Z) : kview :=
+  match aget fd (tbl (l_sel l) 0) with Some e => Some (k_r e, k_w e, k_tok e) | None => None end.
 
-(** [EventLoop::token] on the coroutine path followed by [Selector::add_read_event] *)
-Definition begin_wait (l : loop) (c fd : Z) : bool * loop :=
-  let '(ok, s) := add_read_event (l_sel l) 0 fd c in
+Definition with_sel (l : loop) (s : sel) : loop :=
+  {| l_sel := s; l_cotok := l_cotok l; l_sys := l_sys l; l_ctags := l_ctags l |}.
+Definition with_sys (l : loop) (y : list (Z * want)) : loop :=
+  {| l_sel := l_sel l; l_cotok := l_cotok l; l_sys := y; l_ctags := l_ctags l |}.
+
+(** [EventLoop::token] on the coroutine path followed by [Selector::add_read_event] /
+    [add_write_event] *)
+Definition begin_wait (l : loop) (d : bool) (c fd : Z) : bool * loop :=
+  let '(ok, s) := if d then add_write_event (l_sel l) 0 fd c else add_read_event (l_sel l) 0 fd c in
   (ok, {| l_sel := s; l_cotok := zadd c (l_cotok l); l_sys := l_sys l; l_ctags := l_ctags l |}).
+
+(** ghost: which recorded finding a mis-delivered event belongs to. The event for ([fd], [d]) came
+    with token [tok]: when somebody waits for ([fd], [d]) and the coroutine named by the token is
+    itself suspended on the other direction of [fd], both waits are outstanding and the OS holds one
+    token for the two of them; otherwise a registration (or its token) has outlived its wait. *)
+Definition classify (y : list (Z * want)) (fd : Z) (d : bool) (tok : Z) : ctag :=
+  match aget tok y with
+  | Some (f, w) =>
+      if (f =? fd) && negb (Bool.eqb w d) && negb (is_nil (waiters_on fd d y)) then TagOneToken else TagOutlives
+  | None => TagOutlives
+  end.
 
 Definition step (l : loop) (o : op) : loop * obs :=
   match o with
-  | Wait c fd =>
+  | Wait d c fd =>
       match aget c (l_sys l) with
       | Some _ => (l, OBusy)
       | None =>
-          let '(ok, l1) := begin_wait l c fd in
-          if ok then
-            ({| l_sel := l_sel l1; l_cotok := l_cotok l1; l_sys := aset c fd (l_sys l1); l_ctags := l_ctags l1 |},
-             OReg true (kdata l1 fd))
+          let '(ok, l1) := begin_wait l d c fd in
+          if ok then (with_sys l1 (aset c (fd, d) (l_sys l1)), OReg true (kdata l1 fd))
           else (l1, OReg false (kdata l1 fd))
       end
-  | WaitT c fd =>
+  | WaitT d c fd =>
       match aget c (l_sys l) with
       | Some _ => (l, OBusy)
       | None =>
-          let '(ok, l1) := begin_wait l c fd in
+          let '(ok, l1) := begin_wait l d c fd in
           (l1, ORegT ok (kdata l1 fd) ok)
       end
-  | Ready fd =>
+  | Ready d fd =>
       match aget fd (tbl (l_sel l) 0) with
       | Some e =>
-          if k_r e then
+          if (if d then k_w e else k_r e) then
+            (* one event, carrying the stored token and the flag of the direction that became ready
+               (the other direction is not ready at that moment: see the harness) *)
             let tok := decode (k_tok e) in
-            let s := deliver (l_sel l) tok true (k_w e) in
+            let s := deliver (l_sel l) tok (negb d) d in
             let hit := zmem tok (l_cotok l) in
             let woken := if hit then match aget tok (l_sys l) with Some _ => [tok] | None => [] end else [] in
             let sys := if hit then arem tok (l_sys l) else l_sys l in
-            let bad := negb (same_set (waiters_on fd (l_sys l)) woken) in
+            let bad := negb (same_set (waiters_on fd d (l_sys l)) woken) in
             ({| l_sel := s; l_cotok := zrem tok (l_cotok l); l_sys := sys;
-                l_ctags := if bad then TagOutlives :: l_ctags l else l_ctags l |},
+                l_ctags := if bad then classify (l_sys l) fd d tok :: l_ctags l else l_ctags l |},
              OEvent tok hit woken)
           else (l, ONoEvent)
       | None => (l, ONoEvent)
       end
   | Del fd =>
       let '(ok, s) := el_del_event (l_sel l) fd in
-      ({| l_sel := s; l_cotok := l_cotok l; l_sys := void_fd fd (l_sys l); l_ctags := l_ctags l |}, ODel ok)
+      let l1 := with_sys (with_sel l s) (void_fd fd (l_sys l)) in
+      (l1, ODel ok (kdata l1 fd))
+  | DelDir d fd =>
+      let '(ok, s) := if d then el_del_write_event (l_sel l) fd else el_del_read_event (l_sel l) fd in
+      let l1 := with_sys (with_sel l s) (void_dir fd d (l_sys l)) in
+      (l1, ODel ok (kdata l1 fd))
+  | Close fd =>
+      let '(_, s) := el_del_event (l_sel l) fd in
+      (with_sys (with_sel l (os_close s fd)) (void_fd fd (l_sys l)), OClose (zmem fd (s_open s)))
+  | Reopen fd =>
+      (with_sel l (os_open (l_sel l) fd), OReopen)
   end.
 
 Fixpoint run_from (l : loop) (ops : list op) : list obs * loop :=
